@@ -8,9 +8,11 @@ Opt(b, v) == <<b, v>>
 Init == stage = "init" /\ in = [vals |-> <<>>]
 PickShape == /\ stage = "init" /\ stage' = "shape"
              /\ \E n \in 1..MaxLen, hw \in BOOLEAN, hm \in BOOLEAN, hx \in BOOLEAN, hd \in BOOLEAN, k \in Ks,
-                   md \in {"quantiles", "uniform"}, rd \in {"mean", "sum"} :
+                   md \in {"quantiles", "uniform"}, rd \in {"mean", "sum"},
+                   dv \in {0, 1, 2} :          \* a default value off the clip bounds, equal to clip_min, equal to clip_max
+                  (hd \/ dv = 0) /\
                   in' = [vals |-> [i \in 1..n |-> 0], hasW |-> hw, w |-> [i \in 1..n |-> 1], hasMin |-> hm, cmin |-> 1,
-                         hasMax |-> hx, cmax |-> 2, hasDef |-> hd, def |-> 0, k |-> k, mode |-> md, red |-> rd]
+                         hasMax |-> hx, cmax |-> 2, hasDef |-> hd, def |-> dv, k |-> k, mode |-> md, red |-> rd]
 PickData == /\ stage = "shape" /\ stage' = "data"
             /\ \E vs \in [1..Len(in.vals) -> VDom], ws \in (IF in.hasW THEN [1..Len(in.vals) -> WDom] ELSE {in.w}) :
                  in' = [in EXCEPT !.vals = vs, !.w = ws]
